@@ -340,3 +340,52 @@ def _write_sinks(ctx, module, step, local_names):
                 yield f".{call.func.attr}() on", call, call.func.value
             if isinstance(call.func, ast.Name) and call.func.id == "setattr" and call.args:
                 yield "setattr on", call, call.args[0]
+            # a local lambda/closure that passes one of its own arguments as out=
+            if isinstance(call.func, ast.Name):
+                target = step.vars.get(call.func.id)
+                if isinstance(target, ast.Lambda):
+                    for idx in _lambda_out_params(target):
+                        actual = _actual_argument(call, idx)
+                        if actual is not None:
+                            yield "out= inside a local lambda, writing into its argument", call, actual
+
+
+def _lambda_out_params(lam: ast.Lambda):
+    """Indices of the lambda's positional arguments that it hands to an inner call as out=."""
+    args = lam.args
+    names = [a.arg for a in args.posonlyargs + args.args]
+    vararg = args.vararg.arg if args.vararg else None
+    found = []
+    for node in ast.walk(lam.body):
+        if isinstance(node, ast.Call):
+            for kw in node.keywords:
+                if kw.arg != "out":
+                    continue
+                value = kw.value
+                if isinstance(value, ast.Name) and value.id in names:
+                    found.append(names.index(value.id))
+                elif isinstance(value, ast.Subscript) and isinstance(value.value, ast.Name) and value.value.id == vararg \
+                        and isinstance(value.slice, ast.Constant) and isinstance(value.slice.value, int):
+                    found.append(len(names) + value.slice.value)
+    return found
+
+
+def _actual_argument(call: ast.Call, index: int):
+    """The expression passed as positional argument ``index`` (through *[...] if needed)."""
+    pos = 0
+    for arg in call.args:
+        if isinstance(arg, ast.Starred):
+            inner = arg.value
+            if isinstance(inner, (ast.List, ast.Tuple)):
+                if index - pos < len(inner.elts):
+                    return inner.elts[index - pos]
+                pos += len(inner.elts)
+                continue
+            if isinstance(inner, (ast.ListComp, ast.GeneratorExp)):
+                # any element of the comprehension (kept inside it so that its variables expand)
+                return ast.Subscript(value=inner, slice=ast.Constant(0), ctx=ast.Load())
+            return inner
+        if pos == index:
+            return arg
+        pos += 1
+    return None
